@@ -185,3 +185,34 @@ class time_limit:
         signal.alarm(0)
         signal.signal(signal.SIGALRM, self.old)
         return False
+
+
+class Unchanged:
+    """snapshot of the caller's argument arrays / object attributes taken before a call; changed() names those that differ
+    afterwards (a call must not modify what it was handed unless it is documented as in-place)"""
+    def __init__(self, **named):
+        import copy as _c
+        import numpy as _np
+        self.named = named
+        self.before = {}
+        for k, v in named.items():
+            self.before[k] = self._snap(v)
+
+    @staticmethod
+    def _snap(v):
+        import numpy as _np
+        import copy as _c
+        if isinstance(v, _np.ndarray):
+            return ("a", v.dtype.str, v.shape, v.tobytes() if v.dtype != object else repr(v.tolist()))
+        if hasattr(v, "__dict__"):
+            out = []
+            for a, x in sorted(vars(v).items()):
+                if isinstance(x, _np.ndarray):
+                    out.append((a, x.dtype.str, x.shape, x.tobytes() if x.dtype != object else repr(x.tolist())))
+                elif isinstance(x, (int, float, str, bool, type(None))):
+                    out.append((a, x))
+            return ("o", tuple(out))
+        return ("r", repr(v))
+
+    def changed(self):
+        return sorted(k for k, v in self.named.items() if self._snap(v) != self.before[k])
